@@ -916,6 +916,8 @@ func (stmt *CreateIndexStmt) execAt(ctx context.Context, tx *SQLTx, params map[s
 		index.predicate = stmt.predicate
 	}
 
+	index.createdByOngoingTx = !index.IsPrimary()
+
 	// v={unique {colID1}(ASC|DESC)...{colIDN}(ASC|DESC)}
 	// TODO: currently only ASC order is supported
 	colSpecLen := EncIDLen + 1
@@ -1772,6 +1774,12 @@ func (tx *SQLTx) doUpsert(ctx context.Context, pkEncVals []byte, valuesByColID m
 
 		// no other equivalent entry should be already indexed
 		if index.IsUnique() {
+			if index.createdByOngoingTx {
+				// uniqueness can not be validated: neither committed nor
+				// transient entries are reachable before the index is initialized
+				return fmt.Errorf("%w: %s", ErrUniqueIndexNotYetUsable, index.Name())
+			}
+
 			_, valRef, err := tx.getWithPrefix(ctx, MapKey(tx.sqlPrefix(), MappedPrefix, encodedValues[:len(encodedValues)-1]...), nil)
 			if err == nil && (valRef.KVMetadata() == nil || !valRef.KVMetadata().Deleted()) {
 				return store.ErrKeyAlreadyExists
